@@ -36,6 +36,18 @@ CHECKS = {
              text="TLC enumerates 111 rule lists (unconditional / set / reversed set x forward u1|u2 / reject / no action, shared sets) and checks first-match, only-selected-upstream and REFUSED fall-through on the model; the harness starts a real router per generated list with one scripted upstream per tag and queries names inside/outside/at the apex of each set (incl. mixed case, cache on/off, repeats); TLC recomputes FirstMatch/Decide from the logged configuration (domain files parsed by the specification) and checks the hook's rule index, that only the decided upstream receives exactly the lower-cased question with RD=1, and rcodes; invalid configurations (unknown upstream/set tag, repeated tag, unknown key at 5 nesting levels) must fail to start in-process and as the real binary.",
              note="Rule lists of length 3 are explored only in the thorough tier sample; YAML strictness is checked on the real binary.",
              ref="DESIGN.md section 4 C10"),
+ "C08": dict(technique="TLA+ router/cache model with clock (TLC exhaustive: ageing, expiry, TC never stored, negative set-if-absent never displaces a live positive entry) + TLC trace validation of timed scenarios on real router instances (client/upstream observations + cache.store/cache.get hooks)",
+             text="TLC exhausts the timed cache model (TTL vectors, rcodes, TC, eviction, scaled lifetime caps) for the ageing bound, expiry, no-TC-store and no-displacement; 13 (thorough: 16 incl. the 30 s caps) timed scenarios run in parallel on separate real router instances: TTL 0/1/4/6 answers re-queried at sub-second to multi-second offsets, SERVFAIL (1 s), REFUSED (5 s), NXDOMAIN with short SOA, NODATA, maximum_ttl, truncated and garbage replies, a refresh answered by SERVFAIL/REFUSED; TLC checks every served TTL against the upstream TTL minus whole seconds since the proxy's own stored instant, that nothing is served later than lifetime + 2 s, the stored lifetime, and that truncated/failed exchanges are never served from cache.",
+             note="One-sided timing bounds with the granularity the property grants; TTL 2^32-1 not generated; memory cache only.",
+             ref="DESIGN.md section 4 C08"),
+ "C12": dict(technique="TLA+ response/forward construction rules (RouterOps: ProxyUdpSize, EcsOption) + TLC trace validation of raw upstream query images and parsed client responses over client address kinds and option-laden OPTs",
+             text="On real routers with ECS on and off, clients on udp/tcp/quic (loopback aliases) and DoH listeners (arbitrary IPv4, IPv6, IPv4-mapped and absent addresses through the client address header) send queries with no OPT, a plain OPT and an option-laden OPT (cookie, ECS, padding, DO) while upstream replies carry option-laden OPTs, on uncached and cached paths; TLC checks that a response has exactly one empty OPT advertising the proxy's size iff the supported query had one and none otherwise, that each upstream query has exactly one OPT whose only possible option is ECS, and that the ECS bytes equal the specification's EcsOption(client address) (/24, /56, scope 0, no host bits) and are absent when ECS is off or the address unknown.",
+             note="Upstream-side OPT scanned from the raw wire by the harness; at most one OPT per generated message.",
+             ref="DESIGN.md section 4 C12"),
+ "C19": dict(technique="TLA+ router model with prefetch set (TLC exhaustive: at most one refresh per key, hit never waits) + TLC trace validation of pf.reserve/pf.done hooks (under the controller's mutex), upstream view and hit latencies in refresh-window scenarios",
+             text="TLC exhausts the prefetch part of the router model; on real routers 8 s entries are hit by bursts of 24-40 concurrent clients at the start of the last quarter while the scripted upstream stalls, fails (garbage, silence, SERVFAIL reply) or completes the refresh; TLC checks single-flight on the hook events and on the upstream's view (no two overlapping exchanges for a key that has a live entry), that window hits are answered within the slack while the refresh is stalled, that hits after a successful refresh carry the renewed entry, and that a failed refresh leaves the old entry served.",
+             note="Schedules are sampled (27 keys x bursts per run); latency bound one-sided.",
+             ref="DESIGN.md section 4 C19"),
 }
 
 PENDING_REASON = "check under construction in this round (see DESIGN.md section 4); not claimed until its machinery is committed and passes on the unchanged tree"
